@@ -8,7 +8,7 @@ HIDDEN = re.compile(r' seg=\d+ si=\S+ pe=\S+ canon=\d rp=\S')
 def cfg_view(op, impl):
     """what cfg_driver.cpp prints for this operation, derived from the model's answer line"""
     t = op.split(' ')[0]
-    if t in ('probe', 'rt', 'utf', 'cmp', 'idnahyp'): return None
+    if t in ('probe', 'rt', 'utf', 'cmp', 'idnahyp', 'pencset'): return None
     s = HIDDEN.sub('', impl)
     s = re.sub(r' rpe=\S+', '', s)
     s = re.sub(r' so=\d', '', s)
@@ -62,6 +62,8 @@ def _configs(cfgs, lines):
     viol = []
     if not lines: return {'coverage': cov, 'violations': viol}
     lean, lrc, lerr = run_ops(lean_driver(), '\n'.join(lines) + '\n')
+    if lrc != 0 or len(lean) != len(lines):
+        return {'coverage': cov, 'violations': [('config', ['# model driver'], 'the model driver failed: rc=%s, %d/%d answers\n%s' % (lrc, len(lean), len(lines), lerr[-1500:]), False)]}
     expect = [cfg_view(lines[i], lean[i].partition(' ## ')[0]) for i in range(len(lines))]
     key = sha_files(repo_sources() + [os.path.join(VERIF, 'harness', 'cfg_driver.cpp')] + [os.path.join(REPO, 'tools', 'amalgamate', f) for f in ('amalgamate.py', 'config-cpp.json', 'config-h.json', 'config-cpp.prologue')] + [os.path.join(REPO, 'tools', 'amalgamate.sh')])
     outdir = os.path.join(CACHE, 'c_' + key)
@@ -129,6 +131,8 @@ def threads(tier, seed, runner, lines):
     if exe is None:
         return {'coverage': cov, 'violations': [('build', ['# threads.cpp'], 'TSan harness does not build:\n' + log[-2500:], False)]}
     lean, lrc, lerr = run_ops(lean_driver(), '\n'.join(lines) + '\n')
+    if lrc != 0 or len(lean) != len(lines):
+        return {'coverage': cov, 'violations': [('threads', ['# model driver'], 'the model driver failed: rc=%s, %d/%d answers\n%s' % (lrc, len(lean), len(lines), lerr[-1500:]), False)]}
     expect = [cfg_view(lines[i], lean[i].partition(' ## ')[0]) for i in range(len(lines))]
     K, N = (12, 8) if tier == 'quick' else (200, 16)
     text = '\n'.join(lines) + '\n'
@@ -176,6 +180,8 @@ def faults(tier, seed, runner, lines):
     # the raw representation after every injected failure of single setter calls must be a state the exception-aware
     # operational model (Impl/SetRepExc.lean, theorems Props/C20b) can be left in
     fs = [l[len('FAILSTATE '):] for l in out if l.startswith('FAILSTATE ')]
+    if len(fs) < 20 and p.returncode == 0:
+        viol.append(('fault', ['# fault harness'], 'only %d post-failure states were reported by the fault harness (at least 20 expected): the membership tie did not run' % len(fs), False))
     if fs:
         q = subprocess.run([lean_driver(), 'failstates'], input='\n'.join(fs) + '\n', stdout=subprocess.PIPE, stderr=subprocess.PIPE, text=True, timeout=1800)
         ans = [a for a in q.stdout.split('\n') if a]
@@ -185,6 +191,7 @@ def faults(tier, seed, runner, lines):
         else:
             bad = [(l, a) for l, a in zip(fs, ans) if a != 'ok']
             cov['post_failure_states_not_in_model'] = len(bad)
+            cov['post_failure_states_that_differ_from_the_state_before'] = sum(1 for l in fs if l.split(' | ')[1] != l.split(' | ')[2])
             for l, a in bad[:2]:
                 viol.append(('fault', ['# FAILSTATE ' + l], 'after an injected allocation failure the object is in a state the exception-aware operational model cannot be left in (the order of mutations and throwing operations changed):\n%s\n%s' % (l[:1500], a[:600]), False))
     m = re.search(r'SUMMARY operations=(\d+) failure_points=(\d+) violations=(\d+)', p.stdout)
@@ -261,7 +268,11 @@ def setrep(tier, seed, runner, lines):
     steps = getattr(runner, 'main_steps', None) or []
     cov = {'steps': len(steps)}
     viol = []
-    if not steps: return {'coverage': cov, 'violations': viol}
+    expected = sum(1 for l in lines if l.split(' ')[0] in ('set', 'parse'))
+    if not steps:
+        # the harness printed no step although the run contains setter / parse operations: the tie did not run
+        if expected > 20: viol.append(('setrep', ['# setrep'], 'setrep\nthe run has %d parse / set operations but the harness reported no raw-state step: the replay did not take place' % expected, False))
+        return {'coverage': cov, 'violations': viol}
     ans = _setrep_eval([s for (_, s) in steps])
     kinds = {}
     changed = 0
@@ -326,6 +337,8 @@ def _wpt(which, runner):
     d = g.form_data() if which == 'wptform' else g.wpt_data('urltestdata.json' if which == 'wpt' else 'setters_tests.json')
     def hxs(s): return '-' if s == '' else s.encode('utf-8', 'surrogatepass').hex()
     starts = [i for i, l in enumerate(lines) if l == 'case'][1:]   # the first 'case' is the stream separator
+    if len(starts) < len(d):
+        return {'coverage': {'cases': len(d)}, 'violations': [('wpt', ['# ' + which], 'wpt\nthe generator produced %d cases for %d data entries' % (len(starts), len(d)), False)]}
     cov = {'cases': len(d), 'spec_agrees': 0, 'cpp_agrees': 0}
     viol = []
     if getattr(g, 'wpt_missing', None): cov['data_files_not_readable'] = sorted(g.wpt_missing)
@@ -375,15 +388,33 @@ def ownreplay(tier, seed, runner, lines):
         return {'coverage': cov, 'violations': [('build', ['# own_replay.cpp'], 'the ownership replay harness does not build:\n' + log[-2500:], False)]}
     gen = os.path.join(LEAN, '.lake', 'build', 'bin', 'owngen')
     runs, steps = (150, 80) if tier == 'quick' else (1500, 120)
-    g = subprocess.run([gen, str(seed), str(runs), str(steps)], stdout=subprocess.PIPE, stderr=subprocess.PIPE, text=True, timeout=1800)
-    if g.returncode != 0 or 'MODELCHECK true' not in g.stdout:
-        return {'coverage': cov, 'violations': [('own', ['# owngen'], 'the history generator failed or the model left its own invariant: rc=%s %s %s' % (g.returncode, g.stdout[-300:], g.stderr[-1500:]), False)]}
-    hist = g.stdout
+    if lines and lines[0] == 'RESET':
+        hist = '\n'.join(lines) + '\n'      # --replay of a history this check wrote earlier
+        runs = hist.count('RESET')
+    else:
+        g = subprocess.run([gen, str(seed), str(runs), str(steps)], stdout=subprocess.PIPE, stderr=subprocess.PIPE, text=True, timeout=1800)
+        if g.returncode != 0 or 'MODELCHECK true' not in g.stdout:
+            return {'coverage': cov, 'violations': [('own', ['# owngen'], 'the history generator failed or the model left its own invariant: rc=%s %s %s' % (g.returncode, g.stdout[-300:], g.stderr[-1500:]), False)]}
+        hist = g.stdout
+    n_ops = sum(1 for l in hist.split('\n') if l.startswith('OP '))
+    kinds = {}
+    for l in hist.split('\n'):
+        if l.startswith('OP '):
+            t = l.split(' ')
+            k = t[1] + (':' + t[3] if t[1] == 'paramsMutate' and len(t) > 3 else '')
+            kinds[k] = kinds.get(k, 0) + 1
+    cov['operation_kinds'] = dict(sorted(kinds.items()))
     e = dict(os.environ); e['ASAN_OPTIONS'] = 'detect_leaks=1:abort_on_error=0'
     p = subprocess.run([exe], input=hist, stdout=subprocess.PIPE, stderr=subprocess.PIPE, text=True, env=e, timeout=1800)
     m = re.search(r'ops=(\d+) mismatching states=(\d+)', p.stdout)
     cov['histories'] = runs
     if m: cov.update({'operations': int(m.group(1)), 'mismatching_states': int(m.group(2))})
+    if m and int(m.group(1)) != n_ops:
+        viol.append(('own', ['# own_replay'], 'own\nthe replay harness executed %s of the %d generated operations' % (m.group(1), n_ops), False))
+    if 'UNKNOWN OP' in p.stdout or 'UNKNOWN MUT' in p.stdout:
+        viol.append(('own', ['# own_replay'], 'own\nthe replay harness does not know an operation the model generated:\n' + '\n'.join(l for l in p.stdout.split('\n') if 'UNKNOWN' in l)[:1000], False))
+    if n_ops < 1000 and not (lines and lines[0] == 'RESET'):
+        viol.append(('own', ['# owngen'], 'own\nonly %d operations were generated' % n_ops, False))
     if (m and int(m.group(2)) > 0) or p.returncode != 0 or not m:
         # the first mismatch with its history (from the last RESET)
         first = p.stdout.split('MISMATCH after ')[1].split('\n')[0] if 'MISMATCH after ' in p.stdout else None
@@ -395,5 +426,5 @@ def ownreplay(tier, seed, runner, lines):
                 st = max(i for i in range(idx + 1) if L[i] == 'RESET')
                 en = next(i for i in range(idx, len(L)) if L[i] == 'E')
                 rep = L[st:en + 1]
-        viol.append(('own', ['# ' + l for l in rep[-400:]] or ['# own_replay'], 'own\nthe pointer graph of the real objects differs from the model (rc=%s)\n%s\n%s' % (p.returncode, p.stdout[:3000], p.stderr[-2500:]), bool(first) or p.returncode != 0))
+        viol.append(('own', rep or ['# own_replay'], 'own\nthe pointer graph of the real objects differs from the model (rc=%s)\n%s\n%s' % (p.returncode, p.stdout[:3000], p.stderr[-2500:]), bool(first) or p.returncode != 0))
     return {'coverage': cov, 'violations': viol}
